@@ -4,10 +4,10 @@ import os
 import random
 import shutil
 
-from .common import BIN, WORK
+from .common import BIN, RUN
 
 VCHILD = os.path.join(BIN, "vchild")
-SP = os.path.join(WORK, "sp")
+SP = os.path.join(RUN, "sp")
 
 
 def hx(b):
